@@ -23,6 +23,7 @@ fn c01_gen() -> GenCfg {
     g.max_fields = 6;
     g.skips = true;
     g.item_renames = true;
+    g.readonly = true;
     g
 }
 
@@ -123,7 +124,7 @@ fn c01_labels(c: &ProgCase) -> Vec<String> {
 }
 
 pub fn c01() -> FactCheck {
-    FactCheck { name: "c01-keys", gen: c01_gen, langs: &ALL_LANGS, oracle: c01_oracle, nontrivial: c01_nontrivial, labels: c01_labels, cfgs: cfg_strategy, exec_python: false, post: no_post }
+    FactCheck { name: "c01-keys", gen: c01_gen, langs: &ALL_LANGS, oracle: c01_oracle, nontrivial: c01_nontrivial, labels: c01_labels, cfgs: cfg_strategy_acr, exec_python: false, post: no_post }
 }
 
 // =============================================================================================== C02
@@ -286,7 +287,7 @@ fn c02_labels(c: &ProgCase) -> Vec<String> {
     l
 }
 pub fn c02() -> FactCheck {
-    FactCheck { name: "c02-enums", gen: c02_gen, langs: &ALL_LANGS, oracle: c02_oracle, nontrivial: c02_nontrivial, labels: c02_labels, cfgs: cfg_strategy, exec_python: false, post: no_post }
+    FactCheck { name: "c02-enums", gen: c02_gen, langs: &ALL_LANGS, oracle: c02_oracle, nontrivial: c02_nontrivial, labels: c02_labels, cfgs: cfg_strategy_acr, exec_python: false, post: no_post }
 }
 
 // =============================================================================================== C03
